@@ -85,6 +85,8 @@ pub enum Step {
         timed_req: Option<u16>,
         delay_ms: u64,
         via_client: bool,
+        /// Send the items as a chunked write: several WriteRequest messages on one exchange.
+        chunks: Option<ChunkPlan>,
     },
     Invoke {
         sess: usize,
@@ -102,6 +104,33 @@ pub enum Step {
     SetDataver(u16, u32, u32),
     Emit { ep: u16, cl: u32, ev: u32, prio: u8, fabric: Option<u8>, payload_len: usize },
     Sleep(u64),
+}
+
+/// How a write is split into several WriteRequest messages on one exchange. All messages but
+/// the last carry MoreChunkedMessages=true; the controller sends message k+1 after it has
+/// received the answer to message k.
+#[derive(Clone, Debug)]
+pub struct ChunkPlan {
+    /// Number of items in each message (sums to `items.len()`).
+    pub sizes: Vec<usize>,
+    /// TimedRequest flag of each message.
+    pub flags: Vec<bool>,
+    /// Virtual delay before message k is sent (entry 0 is unused: message 0 uses `delay_ms`).
+    pub gaps_ms: Vec<u64>,
+    /// Keep sending the remaining messages on the same exchange after one was answered with
+    /// something else than a WriteResponse.
+    pub continue_after_refusal: bool,
+    /// The last message carries MoreChunkedMessages=false explicitly (otherwise the field is left out).
+    pub explicit_last: bool,
+}
+
+/// What happened to one message of a chunked write.
+#[derive(Clone, Debug, Default)]
+pub struct ChunkIo {
+    pub t_send: u64,
+    pub t_recv: u64,
+    pub msg: Option<Msg>,
+    pub err: Option<String>,
 }
 
 #[derive(Clone, Debug)]
@@ -130,6 +159,10 @@ pub struct StepOut {
     pub client_write: Option<Vec<im_ref::AttrItem>>,
     pub client_invoke: Option<im_ref::InvokeResponse>,
     pub via_client: bool,
+    /// Virtual time at which the answer to the TimedRequest arrived at the controller.
+    pub timed_t: Option<u64>,
+    /// Chunked write: one entry per WriteRequest message that was sent.
+    pub chunk_io: Vec<ChunkIo>,
 }
 
 #[derive(Default)]
@@ -775,7 +808,7 @@ pub fn run_world(cfg: &WorldCfg, steps: &[Step]) -> WorldOut {
                             match sid.and_then(|sid| Exchange::initiate_for_session(mc, crypto_c, sid)) {
                                 Ok(mut ex) => {
                                     let (op, bytes) = match step {
-                                        Step::Write { items, .. } => (OpCode::WriteRequest, im_ref::enc_write_request(items, *timed_flag)),
+                                        Step::Write { items, .. } => (OpCode::WriteRequest, im_ref::enc_write_request(items, *timed_flag, None)),
                                         Step::Invoke { items, .. } => (OpCode::InvokeRequest, im_ref::enc_invoke_request(items, *timed_flag)),
                                         _ => unreachable!(),
                                     };
@@ -813,12 +846,51 @@ pub fn run_world(cfg: &WorldCfg, steps: &[Step]) -> WorldOut {
                                                 return Ok(());
                                             }
                                         }
+                                        so.timed_t = timed_req.map(|_| clock::now());
                                         if *delay_ms > 0 {
                                             exec::sleep_ms(*delay_ms).await;
                                         }
+                                        if let Step::Write { items, chunks: Some(plan), .. } = step {
+                                            // chunked write: message k+1 follows the answer to message k
+                                            let n = plan.sizes.len();
+                                            let mut start = 0usize;
+                                            for k in 0..n {
+                                                let end = (start + plan.sizes[k]).min(items.len());
+                                                if k > 0 && plan.gaps_ms[k] > 0 {
+                                                    exec::sleep_ms(plan.gaps_ms[k]).await;
+                                                }
+                                                let bytes = im_ref::enc_write_request(&items[start..end], plan.flags[k], if k + 1 < n { Some(true) } else if plan.explicit_last { Some(false) } else { None });
+                                                start = end;
+                                                trace_msg("->", &Msg { opcode: OpCode::WriteRequest as u8, payload: bytes.clone() });
+                                                let mut io = ChunkIo { t_send: clock::now(), ..Default::default() };
+                                                let res = match send_msg(&mut ex, OpCode::WriteRequest, &bytes, T_MS).await {
+                                                    Ok(()) => recv_msg(&mut ex, T_MS).await,
+                                                    Err(e) => Err(e),
+                                                };
+                                                io.t_recv = clock::now();
+                                                match res {
+                                                    Ok(m) => {
+                                                        trace_msg("<-", &m);
+                                                        let refused = m.opcode != OP_WRITE_RESP;
+                                                        so.msgs.push(m.clone());
+                                                        io.msg = Some(m);
+                                                        so.chunk_io.push(io);
+                                                        if refused && !plan.continue_after_refusal {
+                                                            break;
+                                                        }
+                                                    }
+                                                    Err(e) => {
+                                                        io.err = Some(e.clone());
+                                                        so.chunk_io.push(io);
+                                                        return Err(e);
+                                                    }
+                                                }
+                                            }
+                                            return Ok(());
+                                        }
                                         let (op, bytes) = match step {
                                             Step::Write { items, .. } => {
-                                                (OpCode::WriteRequest, im_ref::enc_write_request(items, *timed_flag))
+                                                (OpCode::WriteRequest, im_ref::enc_write_request(items, *timed_flag, None))
                                             }
                                             Step::Invoke { items, .. } => {
                                                 (OpCode::InvokeRequest, im_ref::enc_invoke_request(items, *timed_flag))
